@@ -34,7 +34,7 @@ class Divergence(common.ToolError):
 
 
 class _T:
-    __slots__ = ("id", "sem", "state", "pred", "deadline", "timed_out", "thread", "steps", "name", "loc", "wake_mark")
+    __slots__ = ("id", "sem", "state", "pred", "deadline", "timed_out", "thread", "steps", "name", "loc", "wake_mark", "yielding")
 
     def __init__(self, tid, name):
         self.id = tid
@@ -48,6 +48,7 @@ class _T:
         self.name = name
         self.loc = None
         self.wake_mark = 0
+        self.yielding = False
 
 
 class Scheduler:
@@ -131,7 +132,10 @@ class Scheduler:
                     self.tls.busy = False
                 if ok:
                     out.append(t)
-        if cur in out:
+        # pollers (threads parked in a sleep / yield-wait) come last: the default continuation prefers
+        # threads that do real work, so two pollers can never starve a worker by waking each other
+        out.sort(key=lambda t: (t.yielding, t.id))
+        if cur in out and not cur.yielding:
             out.remove(cur)
             out.insert(0, cur)
         return out
@@ -200,7 +204,7 @@ class Scheduler:
             t.timed_out = True
             t.pred = None
             return t
-        cur_enabled = bool(enabled) and enabled[0] is cur
+        cur_enabled = bool(enabled) and enabled[0] is cur and not cur.yielding
         nxt = self._choose(enabled, cur_enabled)
         if nxt is None:
             return None
@@ -294,7 +298,19 @@ class Scheduler:
                     return True
             return False
 
-        self.point(pred=progressed, timeout=max(secs, 1e-6))
+        start = self.now
+        cur.yielding = True
+        try:
+            self.point(pred=progressed, timeout=max(secs, 1e-6))
+        finally:
+            cur.yielding = False
+        # waking up costs the requested time even when another thread's progress ended the wait:
+        # otherwise two polling loops could spin forever with the virtual clock frozen
+        self.now = max(self.now, start + max(secs, 1e-6))
+        if self.now - self.start_now > self.virtual_limit and not self.abort:
+            self.outcome = self.outcome or "livelock"
+            self._teardown(cur)
+            raise SchedAbort()
 
     def time(self):
         return self.now
@@ -524,6 +540,12 @@ class Result:
 def run_once(body, prefix, traced_codes, max_steps=20000):
     """One execution of body(sched) on the calling thread (= controlled thread 0)."""
     global _ACTIVE
+    import gc
+
+    # finalizers (PipeChannel.__del__, proxies) close fds: the cyclic collector must not fire at an
+    # allocation-count dependent moment inside an execution; collect between executions instead
+    gc.collect()
+    gc.disable()
     s = Scheduler(prefix, traced_codes, max_steps)
     _ACTIVE = s
     threading.Thread.start = _patched_start
@@ -562,6 +584,7 @@ def run_once(body, prefix, traced_codes, max_steps=20000):
                 if _real_is_alive(t.thread):
                     raise common.ToolError(f"controlled thread {t.name} did not unwind")
         _ACTIVE = None
+        gc.enable()
     if s.diverged:
         raise Divergence(f"{s.diverged} (prefix {list(prefix)!r})")
     res.trace = s.trace
@@ -573,17 +596,23 @@ def run_once(body, prefix, traced_codes, max_steps=20000):
     return res
 
 
+COST_MODE = "preemption"  # or "deviation": every departure from choice 0 costs 1 (also free switches)
+
+
 def _children(trace, prefix_len, bound):
-    """Alternative prefixes reachable from this execution within the preemption bound."""
+    """Alternative prefixes reachable from this execution within the bound.  In 'preemption' mode
+    only switching away from a thread that could continue costs 1 (CHESS); in 'deviation' mode every
+    non-default choice costs 1, which also bounds the free switches at blocking/polling points."""
     out = []
     cost = 0
+    dev = COST_MODE == "deviation"
     for i, (n, idx, cur_enabled) in enumerate(trace):
         if i >= prefix_len:
             for alt in range(1, n):
-                c = cost + (1 if cur_enabled else 0)
+                c = cost + (1 if (cur_enabled or dev) else 0)
                 if c <= bound:
                     out.append([x[1] for x in trace[:i]] + [alt])
-        if idx > 0 and cur_enabled:
+        if idx > 0 and (cur_enabled or dev):
             cost += 1
     return out
 
